@@ -386,7 +386,16 @@ theorem combine_eq (src dst : Nat) (cores nonCores : List Seg) (hne : src ≠ ds
   rw [if_neg hne]
   have hall : (inputSegs cores nonCores).all weightsOk = true := by
     rw [List.all_eq_true]; intro x _; exact weightsOk_all x
-  simp only [hall, Bool.not_true, Bool.false_eq_true, if_false, hps]
+  simp only [hall, Bool.not_true, Bool.false_eq_true, if_false, finish, hps]
+
+/-- `combine` is `finish` of the sorted candidates -/
+theorem combine_unfold (src dst : Nat) (cores nonCores : List Seg) (hne : src ≠ dst) :
+    combine src dst cores nonCores = finish (sortedCandidates src dst (inputSegs cores nonCores)) := by
+  unfold combine
+  rw [if_neg hne]
+  have hall : (inputSegs cores nonCores).all weightsOk = true := by
+    rw [List.all_eq_true]; intro x _; exact weightsOk_all x
+  simp only [hall, Bool.not_true, Bool.false_eq_true, if_false]
 
 /-! ## 4. where offered paths come from -/
 
